@@ -4,6 +4,7 @@ From HTA.lib Require Import Base Cells Intervals.
 From HTA.model Require Import C04_Model.
 From HTA.gen Require Import KernelRules_gen.
 From HTA.proof Require Import KernelRulesTie C04_Proofs.
+From HTA.proof Require Import Scale C04_Scale.
 
 (* For EVERY ts-sorted permutation D', C' of the device / computation intervals (pandas' unstable
    sort may return any of them): kernel_time = span, idle = uncovered cells, compute = cells covered
@@ -64,3 +65,9 @@ Theorem C04_kernel_types_follow_source : forall n,
   ktype_code (get_kernel_type n) = kernel_type_gen (is_comm_kernel n) (is_memory_kernel n) (is_compute_kernel n).
 Proof. exact kernel_type_is_generated. Qed.
 Print Assumptions C04_kernel_types_follow_source.
+
+(* resolution independence: a trace whose times are multiplied by k > 0 (fractional microseconds brought to a common denominator)
+   has k times the idle, compute, non-compute and kernel time -- the percentages are those of the original *)
+Theorem C04_resolution_independent : forall k l, 0 < k -> model_C04 (scale_evs k l) = scale4 k (model_C04 l).
+Proof. exact C04_scale. Qed.
+Print Assumptions C04_resolution_independent.
